@@ -6,7 +6,7 @@ C03: the renumbering table of `sub_step` (core Lean only).
   `TWF t cur S T`   the table maps exactly S to 0, exactly T to 1, every other bound key to a number in
                     [2, cur), injectively
   `renum_spec`      the loop over the edges keeps `TWF`, only ADDS bindings (so the numbers written into
-                    the edges earlier stay valid: `renum_get_present`, `renum_raw`), binds exactly the old
+                    the edges earlier stay valid: `ext_get`, 4th conjunct of `renum_spec`), binds exactly the old
                     keys and the end points of the edges, and numbers consecutively
 -/
 namespace Tbx.InertialFlow
